@@ -135,6 +135,9 @@ def realise_order(root, kinds, want_order, rng):
         names = []
         for k in kinds:
             n = rng.randrange(1, 100000)
+            if k.startswith('='):
+                names.append(k[1:])              # a fixed name (files that must keep their base name)
+                continue
             names.append({'E': 'f%d.sol', 'X': 'n%d.txt', 'T': 'f%d.t.sol', 'D': 'd%d', 'B': 'b%d.bin'}[k] % n)
         if len(set(names)) < len(names):
             continue
@@ -152,6 +155,8 @@ def realise_order(root, kinds, want_order, rng):
 def kind_of(ent):
     if ent[0] == 'dir':
         return 'D'
+    if ent[1] == 'Same.sol':
+        return '=Same.sol'
     if ent[1].endswith('.t.sol'):
         return 'T'
     return 'E' if ent[1].endswith('.sol') else 'X'
@@ -176,7 +181,8 @@ def rename_for_order(entries, key, listing, rng, scratch):
 
 
 def materialise(tree_entries, root, findings_of, counter=None):
-    """create the tree on disk; findings_of(tag) -> list of pattern names that must have findings in that file"""
+    """create the tree on disk; findings_of(tag) -> list of pattern names that must have findings in that file.
+    Files called Same.sol are copies of each other (same findings on the same lines)"""
     counter = counter or [0]
     os.makedirs(root, exist_ok=True)
     for ent in tree_entries:
@@ -189,7 +195,7 @@ def materialise(tree_entries, root, findings_of, counter=None):
             if len(ent) > 3 and ent[3] == 'binary':
                 open(p, 'wb').write(b'\xff\xfe\x00 not utf-8 \x80\x81')
             else:
-                open(p, 'w').write(file_text(findings_of(ent[2]), counter[0]))
+                open(p, 'w').write(file_text(findings_of(ent[2]), 0 if name == 'Same.sol' else counter[0]))
 
 
 def native_union(chk, cat, root, pattern_names):
